@@ -169,6 +169,11 @@ def run(prog: Program, rep: Report, tier: str):
     from .c03 import rule_flow_bijections, rule_wire
     rule_wire(prog, rep, "C04.share")
     rule_flow_bijections(prog, rep, "C04")
+    # mass conservation layer by layer: the log-det each layer reports is the log-derivative of the map it applies
+    # (in particular in the linear tails of LeakyTanh and outside the spline's interval)
+    from .bij import bijection_classes
+    from .c02 import rule_deriv, rule_mask
+    rule_deriv(prog, rep, bijection_classes(prog), R="C04.logdet", minimum=14)
     if tier == "thorough":
         from ..audit import audit_generic
         audit_generic(prog, rep, "C04")
